@@ -5,6 +5,7 @@ import (
 	"context"
 	"fmt"
 	"io"
+	"sync/atomic"
 
 	"github.com/wader/fq/internal/ctxreadseeker"
 	"github.com/wader/fq/internal/iox"
@@ -71,19 +72,32 @@ type hookRS struct {
 	calls    int
 	closed   chan struct{}
 	isClosed bool
+	// the wrapped reader is not safe for concurrent use: calls into it must never overlap
+	inflight int32
+	overlap  atomic.Value // string: first overlapping pair
+}
+
+func (h *hookRS) enter(what string) func() {
+	if n := atomic.AddInt32(&h.inflight, 1); n > 1 {
+		h.overlap.CompareAndSwap(nil, what+" entered while another call into the wrapped reader was in flight")
+	}
+	return func() { atomic.AddInt32(&h.inflight, -1) }
 }
 
 func (h *hookRS) Read(p []byte) (int, error) {
+	defer h.enter("Read")()
 	h.calls++
 	h.onCall(h.calls)
 	return h.r.Read(p)
 }
 func (h *hookRS) Seek(o int64, w int) (int64, error) {
+	defer h.enter("Seek")()
 	h.calls++
 	h.onCall(h.calls)
 	return h.r.Seek(o, w)
 }
 func (h *hookRS) Close() error {
+	defer h.enter("Close")()
 	if !h.isClosed {
 		h.isClosed = true
 		close(h.closed)
@@ -110,19 +124,30 @@ func ctxReadSeeker(r *core.Run) {
 			for j := 1; j <= len(seq); j++ {
 				points = append(points, 100+j)
 			}
+			// 200+j: cancelled inside underlying call j, which then stays blocked (a stuck
+			// device) until the whole sequence has been issued
+			for j := 1; j <= len(seq); j++ {
+				points = append(points, 200+j)
+			}
 			points = append(points, -1) // never
 			for _, cp := range points {
 				n++
 				ctx, cancel := context.WithCancel(context.Background())
 				h := &hookRS{r: bytes.NewReader(data), closed: make(chan struct{})}
+				release := make(chan struct{})
 				h.onCall = func(k int) {
 					if cp == 100+k {
 						cancel()
+					}
+					if cp == 200+k {
+						cancel()
+						<-release
 					}
 				}
 				cr := ctxreadseeker.New(ctx, h)
 				pos := int64(0)
 				cancelledBefore := func(i int) bool { return cp >= 0 && cp < 100 && cp <= i }
+				_ = release
 				bad := ""
 				closedByUs := false
 				for i, o := range seq {
@@ -187,6 +212,12 @@ func ctxReadSeeker(r *core.Run) {
 				// cancellation that lands while it is handing back a result depends on the Go
 				// runtime's select tie-break; the property does not speak of it: not judged.
 				cancel()
+				close(release)
+				if bad == "" {
+					if o, _ := h.overlap.Load().(string); o != "" {
+						bad = "calls into the wrapped reader overlap: " + o
+					}
+				}
 				if bad != "" {
 					r.Violate("ctxreadseeker:"+ops[seq[len(seq)-1]], fmt.Sprintf("sequence %v cancel point %d: %s", seq, cp, bad), map[string]any{"kind": "ctxreadseeker", "seq": seq, "cancel": cp})
 				}
